@@ -41,6 +41,14 @@ CLAIMED = {
    text="TLC checks ModLoad.tla (registry, loading edges, chain walk, cond waits; one action per yield-to-yield segment) composed with ModLoadMon.tla for safety, deadlock freedom and termination over curated and random load graphs (shared helpers, 2/3-cycles entered from several roots, self-loads, failing modules); the real dawn.Load runs on generated project trees under TLC-generated, random and PCT schedules and free-running; every execution is evaluated by the monitor and controlled traces are validated against ModLoad.tla. The spec also models the defective walk found in the original code (Walk = current), which TLC shows to deadlock.",
    note="synctest cannot see through a goroutine blocked on a mutex: a stalled schedule is re-executed outside a bubble with wall-clock quiescence and then drained; a hang there is the verdict.",
    technique="TLA+ design spec + TLC (safety, deadlock, liveness); TLC-generated schedules replayed on real dawn.Load under a controlled scheduler; TLA+ monitor over real traces; trace validation"),
+ "C07": dict(engine="pickle", level="model_checking", design="DESIGN.md §4 C07/C15/C08",
+   text="Pickle.tla models the encoder (memoize-before-contents, unmemoized tuples, host objects memoized after their arguments, batched container filling) and the decoder (stack machine with memo) over heap values with first-class sharing and cycles; TLC checks decode(encode(h)) isomorphic to h for every heap of the scope with batch = 2 (batch boundaries inside 3-element containers) and reproduces the original batching defect with Repush = TRUE. Every heap of the 2-node scope is built as a real Starlark value and round-tripped through the real codec, together with boundary integers, length classes and containers scaled to the real batch size at 11 nesting positions; the TLA+ monitor compares canonical forms (type, structure, contents, sharing) and runs the reference decoder on the real encoder's byte stream.",
+   note="TLC integers are 32-bit, so integers travel as decimal text and byte assembly is decided on the real code for enumerated boundary values; Starlark value equality/hashing trusted.",
+   technique="TLA+ reference model of the codec checked exhaustively by TLC on small scopes; TLC-enumerated cases executed on the real codec; real calls evaluated by a TLA+ monitor that runs the reference decoder on the real encoder's output"),
+ "C15": dict(engine="pickle", level="model_checking", design="DESIGN.md §4 C07/C15/C08",
+   text="The decoder model of Pickle.tla is total: TLC evaluates it on every op string up to length 4 (quick) / 5 (thorough) over a 22-op alphabet. Every op string of the scope is serialised and given to the real Decode with and without an unpickler, together with seeded byte-level corruptions of real encodings and random byte strings; the monitor accepts only value or error (never panic, nil-without-error, timeout) and compares the verdict with the reference decoder (drift).",
+   note="Declared lengths beyond the input size are outside the property and skipped; corrupted record files on disk are exercised by the fingerprint harness.",
+   technique="TLA+ decoder model checked for totality by TLC; TLC-enumerated op strings and mutated encodings decoded by the real code; outcomes evaluated by a TLA+ monitor"),
  "C20": dict(engine="cache", level="model_checking", design="DESIGN.md §4 C20",
    text="TLC checks Cache.tla (readers/writer lock, fast probe, locked re-probe, call, store; one action per lock operation) composed with CacheMon.tla for 2-4 callers x 1-2 keys x failure plans; the real Cache().once is driven through its Starlark interface by TLC-generated, random and PCT schedules and free-running with a slow callable; every real execution is evaluated by the monitor and controlled traces are validated against Cache.tla.",
    note="sync.RWMutex trusted; callable does not re-enter the cache; failures may be shared by overlapping calls (single-flight) but not cached.",
@@ -78,6 +86,8 @@ manifest = {
          "kind_free_text": "TLC (design check, schedule generation, monitor evaluation, trace validation) + Go overlay harness with synctest controlled scheduler"},
         {"name": "build", "path": "tools/fam_build.py", "serves_properties": ["C01", "C02", "C03", "C13", "C14"],
          "kind_free_text": "TLC + Go overlay harness in package dawn materialising project shapes, fresh Load+Run per step, child processes for crash injection"},
+        {"name": "pickle", "path": "tools/fam_pickle.py", "serves_properties": ["C07", "C15"],
+         "kind_free_text": "TLC (codec model, case generation, monitor) + Go overlay harness in package pickle"},
         {"name": "modload", "path": "tools/fam_modload.py", "serves_properties": ["C06"],
          "kind_free_text": "TLC + Go overlay harness in package dawn driving dawn.Load on generated project trees"},
         {"name": "cache", "path": "tools/fam_cache.py", "serves_properties": ["C20"],
